@@ -104,7 +104,12 @@ public:
   }
 
   void add_task(std::function<void()> &&task) {
-    queue.add_task(task);
+    {
+      // The workers test the queue under shared_mutex before they sleep: the
+      // push must be ordered with that test or the wake-up can be lost
+      std::lock_guard lg(shared_mutex);
+      queue.add_task(task);
+    }
     queue_cv.notify_all();
   }
 
@@ -114,8 +119,12 @@ public:
   }
 
   void stop_all_workers() {
-    for (auto &w : workers)
-      w->stop();
+    {
+      // Same ordering as in add_task, for the stop flags
+      std::lock_guard lg(shared_mutex);
+      for (auto &w : workers)
+        w->stop();
+    }
     queue_cv.notify_all();
   }
 
